@@ -33,7 +33,13 @@ pub struct Item {
 
 impl Item {
     pub fn new(kind: Kind) -> Item {
-        Item { kind, start: 0, end: 0, head_len: 0, indefinite: false }
+        Item {
+            kind,
+            start: 0,
+            end: 0,
+            head_len: 0,
+            indefinite: false,
+        }
     }
     pub fn uint(v: u64) -> Item {
         Item::new(Kind::UInt(v))
@@ -289,7 +295,13 @@ fn read_at(buf: &[u8], pos: usize, depth: usize) -> Result<Item, ReadError> {
             _ => return Err(ReadError::Malformed("unexpected break")),
         },
     };
-    Ok(Item { kind, start: pos, end: p, head_len, indefinite })
+    Ok(Item {
+        kind,
+        start: pos,
+        end: p,
+        head_len,
+        indefinite,
+    })
 }
 
 /// Minimal-width head.
@@ -437,7 +449,11 @@ pub fn write_item(it: &Item, out: &mut Vec<u8>, enc: &mut dyn EncChoice) {
         Kind::UInt(v) => put_head(out, 0, *v, enc),
         Kind::NInt(v) => put_head(out, 1, *v, enc),
         Kind::Bytes(b) | Kind::Text(b) => {
-            let major = if matches!(it.kind, Kind::Bytes(_)) { 2 } else { 3 };
+            let major = if matches!(it.kind, Kind::Bytes(_)) {
+                2
+            } else {
+                3
+            };
             if enc.indefinite() {
                 out.push((major << 5) | 31);
                 let mut rest: &[u8] = b;
@@ -636,7 +652,6 @@ pub fn bignumify(rng: &mut Rng, it: &mut Item, depth: usize) {
     }
 }
 
-
 #[cfg(test)]
 mod tests {
     use super::*;
@@ -659,7 +674,15 @@ mod tests {
         let mut rng = Rng::from_u64(7);
         for _ in 0..200 {
             let mut out = Vec::new();
-            write_item(&it, &mut out, &mut Seeded { rng: &mut rng, widen: 6, indef: 6 });
+            write_item(
+                &it,
+                &mut out,
+                &mut Seeded {
+                    rng: &mut rng,
+                    widen: 6,
+                    indef: 6,
+                },
+            );
             let again = read_exact(&out).unwrap();
             assert_eq!(encode(&again), b);
         }
